@@ -3,6 +3,7 @@ package scen
 import (
 	"fmt"
 	"os"
+	"strings"
 	"unsafe"
 
 	"golang.org/x/sys/unix"
@@ -47,8 +48,17 @@ func OpenPty(w, h int) (*Pty, error) {
 
 // Finish closes the slave, waits for the drain to end and returns the stream.
 func (p *Pty) Finish() string {
+	// a sentinel makes sure everything written before it has reached the master before the slave is closed
+	// (closing first can lose the tail of the stream)
+	const end = "\x1b[0m<<END-OF-STREAM>>"
+	p.Slave.WriteString(end)
+	p.drain.WaitFor(end)
 	p.Slave.Close()
 	b := p.drain.Wait()
 	p.Master.Close()
-	return string(b)
+	s := string(b)
+	if i := strings.Index(s, end); i >= 0 {
+		s = s[:i]
+	}
+	return s
 }
